@@ -7,7 +7,7 @@ CHECK = {
     ],
     "min_nontrivial": (50000, 1000000),
     "timeout": (900, 7200),
-    "rule": ("tuner: 1..3 grids of 2..31 strictly increasing values (linear: integer / 0.125 / real steps; log10: decades, half decades, real "
+    "rule": ("[landscapes include tiny-valued (1e-16..1e-20) and one-ulp-apart values] tuner: 1..3 grids of 2..31 strictly increasing values (linear: integer / 0.125 / real steps; log10: decades, half decades, real "
              "exponent steps), 8 landscapes over the full grid (smooth bowl, plateau, quantised bowl, minimum in a corner, random in [-1e3,1e3], "
              "monotone, constant, random with 4 levels), max_evals 10..1000, local-search and surrogate tuner, in 30 % of the cases one grid "
              "point evaluates to NaN / +inf / -inf.  The harness callback is the reference model of the history: every requested value must be "
